@@ -117,4 +117,51 @@ CHECKS["C15"] = dict(
          "vectors including zeros, enumerated completely through a choice-point proxy for the module-level random.",
     design_ref="DESIGN.md section 3, C15; section 2.3 M3", note=_SOLVER_NOTE + " Frequencies are only judged where nothing else constrains "
     "the field (as the property states) and only from complete enumerations.")
+
+_COV_NOTE = ("Trusted: covref.py (set-based reference model of bins, crosses, type/instance tallies and coverage arithmetic; imports "
+             "nothing from vsc). Genuine defects that are not repaired are classified by mechanism (known_findings.json: F30, F32, F33, F14a).")
+CHECKS["C10"] = dict(
+    level="exploration",
+    technique="runtime monitor: independent set-based coverage reference model compared with the model getters after EVERY sample (quiescent point); exhaustive value sweep per specification for types up to 8 bits",
+    text="Generated covergroup specifications (explicit bins with values and disjoint / adjacent / unordered / duplicated / overlapping / "
+         "nested ranges, bin arrays with [] and [n] for n around the number of values, auto-bins with various auto_bin_max on unsigned and "
+         "signed types, enum coverpoints, ignore and illegal bins cutting bins at every position, wildcard bins, iff by field / expression / "
+         "callable, three sampling styles). Every value of the coverpoint's type is sampled, then a random sequence with repeats and "
+         "gated-off samples; after each sample every regular / ignore / illegal hit counter and the number of bins must equal the reference.",
+    design_ref="DESIGN.md section 3, C10; section 2.3 M6", note=_COV_NOTE)
+CHECKS["C11"] = dict(
+    level="exploration",
+    technique="runtime monitor: reference cross product (names, order, joint hit rule) compared with the cross model getters after every sample",
+    text="Covergroups with 2-4 coverpoints of mixed bin kinds (single bins, arrays, collections behind other bins, auto-bins, enums, ignore "
+         "bins) and crosses of 2-3 of them, iff on crosses and coverpoints; histories exhaustive over the joint value space when it has "
+         "<= 1024 points, then random, placing misses and gated-off samples right after hits (stale hit markers). After every sample: "
+         "exactly the cross bin of the hit combination is incremented by one iff every iff holds and every coverpoint hit; otherwise no "
+         "cross bin changes; bin count, names '<a,b>' and row-major order equal the reference product.",
+    design_ref="DESIGN.md section 3, C11", note=_COV_NOTE)
+CHECKS["C12"] = dict(
+    level="exploration",
+    technique="runtime monitor: reference aggregate (per-instance tallies, per-shape type tallies, weighted at_least coverage arithmetic) over the interleaved sample history, compared after every sample",
+    text="Populations of 1-3 generated covergroup classes x 1-3 constructor variants (different sets of bins) x 1-6 instances created at "
+         "random points of an interleaved sample history, with at_least in {1,2,3} and weights in {1,2,5}. After every sample: every "
+         "instance tally holds only its own samples; every type tally is the bin-wise sum over its same-shape instances; different shapes "
+         "have different types; get_coverage()/get_inst_coverage() on covergroups, coverpoints and crosses equal the reference percentage "
+         "(tolerance 1e-3), stay in [0,100], never decrease and are 100 exactly when every bin reached its threshold.",
+    design_ref="DESIGN.md section 3, C12", note=_COV_NOTE)
+CHECKS["C13"] = dict(
+    level="exploration",
+    technique="runtime monitor: structural diff of four views of one coverage state (model getters, report model, parsed text report, UCIS XML written and read back) at random points of sample histories; state snapshot before/after each report call",
+    text="C12-style populations and histories with 2-5 report points. At each point the in-memory state (getters) is compared with "
+         "vsc.get_coverage_report_model(), the parsed text of vsc.get_coverage_report(details=True) and the XML written by "
+         "vsc.write_coverage_db read back through lxml and PyUCIS: every covergroup type and instance, coverpoint, cross and bin (regular / "
+         "ignore / illegal) with names and hit counts; report percentages against get_coverage()/get_inst_coverage(); producing a report "
+         "or saving must leave every hit list unchanged.",
+    design_ref="DESIGN.md section 3, C13", note=_COV_NOTE + " Temp files live in a per-run directory under /tmp and are removed.")
+CHECKS["C19"] = dict(
+    level="exploration",
+    technique="runtime monitor: reference wildcard matching ((v & mask) == (value & mask)) compared with bin hit counters through the public covergroup API for every sample value of the type; exhaustive over value/mask pairs of <= 8 bits in the thorough tier",
+    text="Batches of wildcard bins ((value,mask) pairs, hex / octal / binary strings with x ? _ at any position, 1-3 patterns per bin) and "
+         "wildcard bin arrays with and without a count on one coverpoint, swept with every value of the coverpoint's type and compared after "
+         "every sample. Quick: all pairs of <= 6 bits plus random 8-bit ones; thorough: all 65536 (value,mask) pairs x 256 samples, all "
+         "binary strings <= 8 digits, hex/octal <= 3 digits, arrays for all 6561 in-mask pairs.",
+    design_ref="DESIGN.md section 3, C19", note=_COV_NOTE)
 NOT_YET = {}
